@@ -240,8 +240,8 @@ Section Proofs.
   Lemma deqb_refl d : deqb d d = true.
   Proof. apply deqb_spec; reflexivity. Qed.
 
-  Lemma verify_written ord m s sm ss :
-    decode_and_verify (Acc (enc_meta m) s (print_sums (sums_lines ord m s)) m sm ss) = Ok tt.
+  Lemma verify_written ord m s (md : Meta) sm ss :
+    decode_and_verify (Acc (enc_meta m) s (print_sums (sums_lines ord m s)) md sm ss) = Ok tt.
   Proof.
     unfold Model.decode_and_verify. cbn [a_sums]. rewrite parse_print, scan_print.
     destruct ord; unfold Model.sums_lines; cbn [map Model.verify_lines];
@@ -252,8 +252,12 @@ Section Proofs.
       cbv beta iota; rewrite !deqb_refl; reflexivity.
   Qed.
 
-  Theorem roundtrip ord m s : read (write ord m s) true = Ok (m, s).
+  (* what is read back is whatever the metadata codec decodes from its own encoding: the state
+     bytes always, the metadata exactly when encoding/json round-trips on it *)
+  Theorem roundtrip_codec ord m s m' :
+    dec_meta meta0 (enc_meta m) = Some m' -> read (write ord m s) true = Ok (m', s).
   Proof.
+    intros Hdec.
     unfold Model.read, Model.write. cbn [Model.read_members m_name m_data m_intact].
     change (String.eqb n_meta n_meta) with true.
     change (String.eqb n_state n_meta) with false.
@@ -261,9 +265,22 @@ Section Proofs.
     change (String.eqb n_sums n_meta) with false.
     change (String.eqb n_sums n_state) with false.
     change (String.eqb n_sums n_sums) with true.
-    cbn [negb acc0 a_md a_meta a_state a_sums a_seen_meta a_seen_state app]. rewrite dec_enc.
+    cbn [negb acc0 a_md a_meta a_state a_sums a_seen_meta a_seen_state app]. rewrite Hdec.
     cbn [negb acc0 a_md a_meta a_state a_sums a_seen_meta a_seen_state app].
     rewrite verify_written. reflexivity.
+  Qed.
+
+  Theorem roundtrip ord m s : read (write ord m s) true = Ok (m, s).
+  Proof. apply roundtrip_codec, dec_enc. Qed.
+
+  (* a metadata value the codec does not give back (encoding/json: a string that is not valid
+     UTF-8) is NOT read back, although the archive verifies: the open finding *)
+  Theorem roundtrip_lossy ord m s m' :
+    dec_meta meta0 (enc_meta m) = Some m' -> m' <> m ->
+    exists r, read (write ord m s) true = Ok r /\ r <> (m, s).
+  Proof.
+    intros Hdec Hne. exists (m', s). split; [apply roundtrip_codec; exact Hdec|].
+    intros Heq. injection Heq as Hx. exact (Hne Hx).
   Qed.
 
   (* ---- checksums untouched => payload untouched ---- *)
